@@ -1,7 +1,9 @@
 #!/bin/bash
-# try_seed.sh <PROP> <mN> [props...]: copy the sub-agent's output to /tmp/wt/out4 and run the checks on the patched /repo
+# try_seed.sh <PROP> <mN> [props...]: copy the sub-agent's output (if its worktree still exists) to the round's
+# collection directory and run the checks on the patched /repo
 P=$1; M=$2; shift 2
-mkdir -p /tmp/wt/out4/$P
-rm -rf /tmp/wt/out4/$P/$M; cp -r /tmp/wt/$P/_out/$M /tmp/wt/out4/$P/$M
+OUT=${SEED_OUT:-/tmp/wt/out4}
+mkdir -p $OUT/$P
+if [ -d /tmp/wt/$P/_out/$M ]; then rm -rf $OUT/$P/$M; cp -r /tmp/wt/$P/_out/$M $OUT/$P/$M; fi
 IDS=${@:-$P}
-/verif/tools/try_patch.sh /tmp/wt/out4/$P/$M/patch.diff $IDS 2>&1 | grep -E "^VIOLATION|^ipfixlint|error|Error" | cut -c1-330
+/verif/tools/try_patch.sh $OUT/$P/$M/patch.diff $IDS 2>&1 | grep -E "^VIOLATION|^ipfixlint|error|Error" | cut -c1-330
